@@ -6,7 +6,12 @@ Engine E3 (deviation-bounded) + graph enumeration:
  (b) every single mutation of every valid override specifier of seeds with sections;
  (c) all 512 include graphs over three virtual resources (self-loops and cycles
      included), include lines at top level and inside a section;
- (d) ZConfig.validator.main in-process on 1..3 files drawn from (a).
+ (d) ZConfig.validator.main in-process on 1..3 files drawn from (a);
+ (f) ZConfig.validator.main on every ordered sequence (with repetition) of files
+     over an alphabet of file kinds = {state-carrying head directive} x {body
+     whose validity depends on that state} x {head first, body first}: the
+     verdict of a file may not depend on the files before it; every ordered
+     pair also through one shared ConfigLoader object (error family only).
 Oracle (invariant): whatever escapes is in the ZConfig.ConfigurationError family;
 validator status is 0/1 as the files are valid/invalid with one message per
 invalid file.
@@ -18,6 +23,7 @@ import os
 import shutil
 import sys
 import tempfile
+import warnings
 
 from vz import core
 from vz.gen import corpus as C
@@ -142,9 +148,18 @@ def shard_a(member, acc):
         xml = M.render(S)
         sch = H.load_schema(xml)
         mid = {"name": "long", "schema": xml}
-        base = classify(H.load(sch, text))
-        if base != "accepted":
-            raise core.HarnessError("long seed not accepted: %s" % (H.load(sch, text)[1],))
+        base_r = H.load(sch, text)
+        base = classify(base_r)
+        if base == "internal":
+            # the seed itself is user input: an internal error on it is a violation, not a broken harness
+            if member[1] == 0:
+                d = core.exc_desc(base_r[1])
+                acc.violation("internal-error-escapes", {"member": mid, "seed": "long", "mutation": "none", "text": text},
+                              d, "ZConfig.ConfigurationError family",
+                              tags={"kind": "internal-error", "exc": d["class"], "where": d["where"], "input": "text"})
+            base = "accepted"
+        elif base != "accepted":
+            raise core.HarnessError("long seed not accepted: %s" % (base_r[1],))
         lo, hi = member[1], member[2]
         muts = list(mutations(text))
         for lab, t in muts[lo:hi]:
@@ -605,7 +620,8 @@ def shard_d(arg, acc):
             acc.transitions += 1
             status = None
             exc = None
-            with contextlib.redirect_stderr(err):
+            with warnings.catch_warnings(), contextlib.redirect_stderr(err):
+                warnings.simplefilter("ignore")      # stderr is compared exactly: no once-per-process warning text
                 try:
                     status = ZConfig.validator.main(["-s", sp] + [p for p, _ in files])
                 except SystemExit as e:
@@ -629,9 +645,319 @@ def shard_d(arg, acc):
                     acc.violation("validator-message-missing", case, out[:300], bad, tags={"kind": "validator-message"})
                     break
                 pos = k + len(msg)
+            else:
+                # one message per invalid file and nothing else
+                if out != "".join(msg + "\n" for msg in bad):
+                    acc.violation("validator-extra-output", case, out[:300], bad,
+                                  tags={"kind": "validator-message", "feature": "extra-output"})
     finally:
         shutil.rmtree(d, ignore_errors=True)
     return acc
+
+
+# ---------------------------------------------------------------------------
+# (f) the validator command on every ordered SEQUENCE of files over an alphabet of file kinds in which each
+# file carries one directive that leaves state behind in whatever object processes it (a loader, a parser, a
+# matcher, the schema) and one body whose validity depends on exactly that state.  The verdict of a file
+# must not depend on the files before it.
+
+SEQ_SCHEMA = """<schema>
+  <abstracttype name="plug"/>
+  <sectiontype name="base" implements="plug">
+    <key name="k"/>
+  </sectiontype>
+  <key name="a"/>
+  <multikey name="m"/>
+  <multisection type="plug" name="*" attribute="plugs"/>
+</schema>
+"""
+
+# head label -> (lines (package / file names are logical), names it makes available to LATER lines of the same
+# file, is the head itself a fault)
+SEQ_HEADS = [
+    ("none", [], (), False),
+    ("imp-pa", ["%import {pa}"], ("ea",), False),
+    ("imp-pb", ["%import {pb}"], ("eb",), False),
+    ("imp-pc", ["%import {pc}"], ("ec", "ea"), False),            # pc's component imports pa itself
+    ("imp-pa-twice", ["%import {pa}", "%import {pa}"], ("ea",), False),
+    ("imp-broken", ["%import {px}"], (), True),                   # component refers to an unknown abstract type
+    ("imp-missing", ["%import {pm}"], (), True),                  # no such package
+    ("imp-nocomp", ["%import {pn}"], (), True),                   # package without component.xml
+    ("define", ["%define v 1"], ("$v",), False),
+    ("inc-ok", ["%include inc_ok.conf"], (), False),
+    ("inc-bad", ["%include inc_bad.conf"], (), True),             # included resource holds an unknown key
+    ("inc-imp", ["%include inc_imp.conf"], ("ea",), False),       # included resource does '%import pa'
+]
+# body label -> (lines, names it needs, is the body itself a fault)
+SEQ_BODIES = [
+    ("key", ["a 1"], (), False),
+    ("base-named", ["<base n1/>"], (), False),
+    ("use-ea", ["<ea>", "  k 1", "</ea>"], ("ea",), False),
+    ("use-eb", ["<eb/>"], ("eb",), False),
+    ("use-ec", ["<ec n1/>"], ("ec",), False),
+    ("use-define", ["a $v"], ("$v",), False),
+    ("bad-key", ["zz 1"], (), True),
+]
+SEQ_HEAD = {h[0]: h for h in SEQ_HEADS}
+SEQ_BODY = {b[0]: b for b in SEQ_BODIES}
+SEQ_FAILING_IMPORTS = ("imp-broken", "imp-missing", "imp-nocomp")
+SEQ_SMALL_HEADS = ("none", "imp-pa", "imp-pc", "imp-broken", "define", "inc-imp")
+SEQ_SMALL_BODIES = ("key", "use-ea", "use-define")
+
+
+def seq_kinds(heads=None, bodies=None, orders=("hb", "bh")):
+    """File kinds (head, body, order): order 'hb' = head lines first, 'bh' = body lines first."""
+    out = []
+    for h in SEQ_HEADS:
+        if heads is not None and h[0] not in heads:
+            continue
+        for b in SEQ_BODIES:
+            if bodies is not None and b[0] not in bodies:
+                continue
+            for o in orders:
+                if h[0] == "none" and o != "hb":
+                    continue
+                out.append((h[0], b[0], o))
+    return out
+
+
+def seq_model_valid(kind):
+    """Reference verdict of one file on its own, from the schema and the documented directives: every name
+    a line uses must have been made available by an EARLIER line of the same file."""
+    h, b, o = kind
+    _, _, gives, hbad = SEQ_HEAD[h]
+    _, _, needs, bbad = SEQ_BODY[b]
+    if hbad or bbad:
+        return False
+    have = set(gives) if o == "hb" else set()
+    return set(needs) <= have
+
+
+def seq_lines(kind):
+    h, b, o = kind
+    hl, bl = SEQ_HEAD[h][1], SEQ_BODY[b][1]
+    return (hl + bl) if o == "hb" else (bl + hl)
+
+
+class InternalError:
+    """Per-file verdict: something outside the error family escaped from loading the file alone."""
+
+    def __init__(self, desc):
+        self.desc = desc
+
+
+class SeqEnv:
+    """Scratch packages + files for part (f); per-file verdicts are computed lazily, each with a schema object
+    and a loader of its own (ZConfig.loadSchema + ZConfig.loadConfig)."""
+
+    def __init__(self):
+        from vz.harness import pkgs
+        self.P = pkgs.Packages()
+        self.dir = tempfile.mkdtemp(prefix="vz-c07f-", dir="/dev/shm" if os.path.isdir("/dev/shm") else None)
+        try:
+            P = self.P
+            pa = P.add_component("pa", [M.SType("ea", (M.Key("k"),), implements="plug")])
+            pb = P.add_component("pb", [M.SType("eb", (), implements="plug")])
+            pc = P.add_component("pc", [M.SType("ec", (M.Key("k"),), implements="plug")], imports=(pa,))
+            px = P.add_component("px", [M.SType("ex", (), implements="no-such-abstract-type")])
+            pn = P.add_package_without_component("pn")
+            pm = P.missing("pm")
+            self.names = {"pa": pa, "pb": pb, "pc": pc, "px": px, "pn": pn, "pm": pm}
+            self.schema_path = os.path.join(self.dir, "schema.xml")
+            self._write("schema.xml", SEQ_SCHEMA)
+            self._write("inc_ok.conf", "m 5\n")
+            self._write("inc_bad.conf", "m 5\nzz 9\n")
+            self._write("inc_imp.conf", "%%import %s\n" % pa)
+        except BaseException:
+            self.close()
+            raise
+        self._paths = {}
+        self._verdicts = {}
+        self._shared = None
+
+    def _write(self, name, text):
+        with open(os.path.join(self.dir, name), "w") as f:
+            f.write(text)
+
+    def text(self, kind, logical=False):
+        names = {k: k for k in self.names} if logical else self.names
+        return "\n".join(l.format(**names) if l.startswith("%import") else l for l in seq_lines(kind)) + "\n"
+
+    def path(self, kind):
+        p = self._paths.get(kind)
+        if p is None:
+            name = "%s.%s.%s.conf" % kind
+            self._write(name, self.text(kind))
+            p = self._paths[kind] = os.path.join(self.dir, name)
+        return p
+
+    def verdict(self, kind):
+        """None (the file loads) or the message of its configuration error, loaded alone."""
+        if kind not in self._verdicts:
+            import ZConfig
+            schema = ZConfig.loadSchema(self.schema_path)
+            try:
+                ZConfig.loadConfig(schema, self.path(kind))
+                v = None
+            except ZConfig.ConfigurationError as e:
+                v = str(e)
+            except Exception as e:
+                v = InternalError(core.exc_desc(e))
+            self._verdicts[kind] = v
+        return self._verdicts[kind]
+
+    def shared_schema(self):
+        if self._shared is None:
+            import ZConfig
+            self._shared = ZConfig.loadSchema(self.schema_path)
+        return self._shared
+
+    def display(self, s):
+        for logical, real in self.names.items():
+            s = s.replace(real, logical)
+        return s.replace(self.dir, "<dir>")
+
+    def close(self):
+        self.P.close()
+        shutil.rmtree(self.dir, ignore_errors=True)
+
+
+def seq_run(env, seq):
+    """Run the validator on the files of `seq`; -> list of (kind, observed, expected, tags) violations."""
+    import ZConfig.validator
+    out = []
+    model = [seq_model_valid(k) for k in seq]
+    alone = [env.verdict(k) for k in seq]
+    for k, mv, av in zip(seq, model, alone):
+        if isinstance(av, InternalError):
+            out.append(("internal-error-escapes", av.desc, "ZConfig.ConfigurationError family",
+                        {"kind": "internal-error", "exc": av.desc["class"], "where": av.desc["where"],
+                         "input": "validator-file"}))
+        elif mv != (av is None):
+            out.append(("file-verdict-differs-from-model", env.display(repr(av)), "valid" if mv else "invalid",
+                        {"kind": "file-verdict", "part": "file-sequence", "head": k[0], "body": k[1], "order": k[2]}))
+    if out:
+        return out
+    err = io.StringIO()
+    status = exc = None
+    with warnings.catch_warnings():
+        warnings.simplefilter("ignore")
+        with contextlib.redirect_stderr(err):
+            try:
+                status = ZConfig.validator.main(["-s", env.schema_path] + [env.path(k) for k in seq])
+            except SystemExit as e:
+                exc = ("SystemExit", e.code)
+            except Exception as e:
+                exc = core.exc_desc(e)
+    want = 0 if all(model) else 1
+    want_err = "".join(m + "\n" for m in alone if m is not None)
+    got = err.getvalue()
+    if exc is not None or status != want:
+        out.append(("validator-wrong-status", [status, exc, env.display(got)[:300]], want,
+                    {"kind": "validator-status", "part": "file-sequence"}))
+    elif got != want_err:
+        out.append(("validator-messages-differ", env.display(got)[:400], env.display(want_err)[:400],
+                    {"kind": "validator-message", "part": "file-sequence"}))
+    return out
+
+
+def seq_same_loader(env, seq):
+    """The files of `seq` loaded one after the other by ONE ConfigLoader object on one schema object.  A loader keeps
+    what its files imported, so the verdicts are not asserted - only that nothing outside the error family escapes."""
+    import ZConfig
+    import ZConfig.loader
+    out = []
+    ld = ZConfig.loader.ConfigLoader(env.shared_schema())
+    for i, k in enumerate(seq):
+        try:
+            ld.loadURL(env.path(k))
+            r = "accepted"
+        except ZConfig.ConfigurationError:
+            r = "rejected"
+        except Exception as e:
+            d = core.exc_desc(e)
+            out.append(("internal-error-escapes", d, "ZConfig.ConfigurationError family",
+                        {"kind": "internal-error", "exc": d["class"], "where": d["where"], "input": "same-loader-sequence"}))
+            break
+    return out
+
+
+def seq_features(seq):
+    """History features of a sequence (for the vacuity guards)."""
+    f = set()
+    for j in range(1, len(seq)):
+        hj, bj, oj = seq[j]
+        needs = set(SEQ_BODY[bj][2])
+        for i in range(j):
+            hi = seq[i][0]
+            gives = set(SEQ_HEAD[hi][2])
+            if needs and needs <= gives and not seq_model_valid(seq[j]) and not SEQ_HEAD[hj][3]:
+                f.add("define-then-bare-use" if "$v" in needs else "import-then-bare-use")
+            if hi == hj and hi in SEQ_FAILING_IMPORTS:
+                f.add("same-failing-import-again")
+            if hi == hj and gives and "$v" not in gives:
+                f.add("same-import-again")
+            if seq[i] == seq[j]:
+                f.add("same-file-again")
+            vi, vj = seq_model_valid(seq[i]), seq_model_valid(seq[j])
+            f.add("valid-before-invalid" if vi and not vj else "invalid-before-valid" if vj and not vi else
+                  "both-valid" if vi else "both-invalid")
+    return f
+
+
+def seq_space(tier):
+    """-> list of (arity, alphabet label, alphabet)"""
+    full = seq_kinds()
+    small = seq_kinds(SEQ_SMALL_HEADS, SEQ_SMALL_BODIES, ("hb",))
+    headfirst = seq_kinds(orders=("hb",))
+    if tier == "quick":
+        return [(1, "full", full), (2, "full", full), (3, "small", small)]
+    return [(1, "full", full), (2, "full", full), (3, "head-first", headfirst), (4, "small", small)]
+
+
+def shard_f(arg, acc):
+    arity, label, lo, hi, tier = arg
+    alphabet = dict((l, a) for n, l, a in seq_space(tier) if n == arity)[label]
+    env = SeqEnv()
+    try:
+        if arity == 1 and lo == 0:
+            acc.states += len(alphabet)
+        for first in alphabet[lo:hi]:
+            for rest in itertools.product(alphabet, repeat=arity - 1):
+                seq = (first,) + rest
+                acc.current = seq
+                viols = seq_run(env, seq)
+                acc.ev()
+                acc.transitions += 1
+                if arity > 1:
+                    acc.nt()
+                if arity == 2:
+                    viols += seq_same_loader(env, seq)
+                    acc.ev()
+                    acc.nt()
+                    acc.transitions += 1
+                    acc.extra["seq_same_loader_pairs"] += 1
+                acc.cls("seq%d-status-%d" % (arity, 0 if all(seq_model_valid(k) for k in seq) else 1))
+                for ft in seq_features(seq):
+                    acc.extra["seq_" + ft.replace("-", "_")] += 1
+                acc.sample(lambda: {"validator_sequence": [list(k) for k in seq],
+                                    "files": [env.text(k, logical=True) for k in seq]})
+                for kind, observed, expected, tags in viols:
+                    acc.violation(kind, {"sequence": [list(k) for k in seq], "schema": SEQ_SCHEMA,
+                                         "files": [env.text(k, logical=True) for k in seq]},
+                                  observed, expected, tags=tags)
+    finally:
+        env.close()
+    return acc
+
+
+def seq_shards(tier):
+    out = []
+    for arity, label, alphabet in seq_space(tier):
+        n = len(alphabet)
+        per = n if arity == 1 else max(1, (n + 31) // 32) if arity == 2 or tier == "quick" else 1
+        out += [(arity, label, lo, min(n, lo + per), tier) for lo in range(0, n, per)]
+    return out
 
 
 def run(tier):
@@ -646,13 +972,31 @@ def run(tier):
              "present / absent, 14 paths x 8 keys x 7 values as single specifiers with all their single mutations, and ordered "
              "pairs; (c) all 512 include graphs over "
              "3 in-memory resources x {top level, inside a section}; (d) validator.main in-process on singles, pairs "
-             "and triples of files; (e) '%%include' (top level and inside a section) and '%%import' with every argument made of a "
+             "and triples of files (stderr must be exactly the messages of the invalid files, in order); (f) validator.main on "
+             "every ordered sequence WITH repetition of files over an alphabet of %d file kinds = 12 heads (nothing; %%import of a "
+             "component, of a second one, of one that imports the first, of the same one twice, of a broken one, of a missing "
+             "package, of a package without component.xml; %%define; %%include of a valid resource, of an invalid one, of "
+             "one that itself imports a component) x 7 bodies (a key; a named section of a schema type; a section of each "
+             "component's type; a key using the defined name; an unknown key) x {head first, body first}: all %d singles, all "
+             "%d ordered pairs, %s; status and the exact stderr must be those of the files taken one by one, "
+             "each with a schema object and loader of its own (the verdict of a file may not depend on the files before "
+             "it), and each file's own verdict must be the one a model of the directives predicts; every ordered pair also loaded "
+             "by ONE ConfigLoader object on one schema object (only the error family may escape; the verdicts are not asserted "
+             "there, a loader keeps what its files imported); (e) '%%include' (top level and inside a section) and '%%import' with every argument made of a "
              "URL prefix (12) + <= %d tokens from a 16-token URL alphabet ('[', ']', ':', '#', NUL, '..', 'package', an "
              "unresolvable host ...).  states = seeds, transitions = loads.  Non-trivial = mutated input whose "
              "outcome class differs from its seed's / graph with >= 1 edge / validator run on >= 2 files."
-             % ("" if tier == "quick" else ", pairs (every 19th first mutation x all second mutations) for the first 12 seeds <= 5 lines of each schema", 2 if tier == "quick" else 3),
+             % ("" if tier == "quick" else ", pairs (every 19th first mutation x all second mutations) for the first 12 seeds <= 5 lines of each schema",
+                len(seq_kinds()), len(seq_kinds()), len(seq_kinds()) ** 2,
+                "; ".join("all %d^%d %d-tuples over the %s sub-alphabet" % (len(a), n, n, l)
+                          for n, l, a in seq_space(tier) if n > 2),
+                2 if tier == "quick" else 3),
         bounds={"mutation_order": 1 if tier == "quick" else 2, "graphs": 1024,
-                "seeds_per_schema": 8 if tier == "quick" else 24},
+                "seeds_per_schema": 8 if tier == "quick" else 24,
+                "validator_sequences": {"%d-tuples over %s" % (n, l): len(a) ** n for n, l, a in seq_space(tier)},
+                "validator_sequence_alphabets": {"full": len(seq_kinds()),
+                                                 "head-first": len(seq_kinds(orders=("hb",))),
+                                                 "small": len(seq_kinds(SEQ_SMALL_HEADS, SEQ_SMALL_BODIES, ("hb",)))}},
         assumptions=["schemas use only datatypes that reject with ValueError",
                      "accept/reject of acyclic include graphs: every file holds only multikey lines, so all are accepted"])
     mem = [("corpus",) + m + (tier,) for m in C.members_bounded(tier, 4)]
@@ -669,6 +1013,7 @@ def run(tier):
     core.pmap(shard_e, [(lo, lo + step, maxlen) for lo in range(0, ncomb, step)], run.acc)
     cm = [m for m in C.members_bounded(tier, 4) if m[0].startswith("rich") or "@1" in m[0]]
     core.pmap(shard_d, [(m, tier) for m in cm[:: (4 if tier == "quick" else 1)]], run.acc)
+    core.pmap(shard_f, seq_shards(tier), run.acc)
     a = run.acc
     a.traces = a.transitions
     run.require(a.classes.get("rejected", 0) > 1000 and a.classes.get("accepted", 0) > 1000, "few mutated texts")
@@ -680,6 +1025,18 @@ def run(tier):
                 and a.classes.get("deep-override-accepted", 0) > 1000, "deep override sweep hardly converts anything")
     run.require(a.classes.get("validator-status-1", 0) > 10 and a.classes.get("validator-status-0", 0) > 5,
                 "validator hardly exercised")
+    x = a.extra
+    run.require(a.classes.get("seq2-status-0", 0) > 1000 and a.classes.get("seq2-status-1", 0) > 1000
+                and a.classes.get("seq3-status-0", 0) > 100 and a.classes.get("seq3-status-1", 0) > 1000,
+                "validator file sequences hardly exercised")
+    run.require(x.get("seq_import_then_bare_use", 0) > 500 and x.get("seq_define_then_bare_use", 0) > 100
+                and x.get("seq_same_failing_import_again", 0) > 500 and x.get("seq_same_import_again", 0) > 500
+                and x.get("seq_same_file_again", 0) > 150 and x.get("seq_same_loader_pairs", 0) > 10000,
+                "validator file sequences: history-dependent orders (import / define in an earlier file that a later "
+                "file needs, the same failing import twice, the same file twice) hardly exercised")
+    run.require(x.get("seq_valid_before_invalid", 0) > 1000 and x.get("seq_invalid_before_valid", 0) > 1000
+                and x.get("seq_both_invalid", 0) > 1000 and x.get("seq_both_valid", 0) > 1000,
+                "validator file sequences: not every valid/invalid order exercised")
     return run
 
 
@@ -705,8 +1062,25 @@ def replay(body):
         elif "member" in case:
             sch = H.load_schema(case["member"]["schema"])
             r = H.load(sch, case["text"])
+        elif "sequence" in case:
+            seq = tuple(tuple(k) for k in case["sequence"])
+            env = SeqEnv()
+            try:
+                for k in seq:
+                    print("file %s: model says %s; alone: %s" % (list(k), "valid" if seq_model_valid(k) else "invalid",
+                                                                 env.display(repr(env.verdict(k)))))
+                viols = seq_run(env, seq) + (seq_same_loader(env, seq) if len(seq) == 2 else [])
+            finally:
+                env.close()
+            for kind, observed, expected, tags in viols:
+                print("%s: observed %r expected %r" % (kind, observed, expected))
+            if viols:
+                rc = 1
+            else:
+                print("validator agrees with the files taken one by one")
+            continue
         else:
-            print("validator cases are re-run by ./check C07")
+            print("validator cases of part (d) are re-run by ./check C07")
             return 1
         print("outcome:", r[0], type(r[1]).__name__, str(r[1])[:200])
         if r[0] == "internal" or body["kind"] in ("cyclic-include-accepted", "acyclic-include-graph-rejected"):
